@@ -760,6 +760,41 @@ impl Builder {
     }
 }
 
+/// Two members with a large fan-out: S owns H and every leaf L_i (which own S back), H owns every
+/// kid K_j, every K_j owns S. All handles recorded. The trace's work list holds dozens of pending
+/// entries at once, in an order that depends on the table layout of S and H. Dropped last: S (or H).
+pub fn double_hub_ops(idx: u64, seed: u64) -> (Vec<Op>, String) {
+    let mut rng = Rng::new(crate::rng::mix(seed ^ 0xD0B1, idx));
+    let leaves = 20 + rng.below(45);
+    let kids = 20 + rng.below(45);
+    let n = 2 + leaves + kids;
+    let mut b = Builder::new(n);
+    let (s, h) = (0usize, 1usize);
+    b.edge(s, h, 1 + rng.below(2) as u8);
+    for i in 0..leaves {
+        let l = 2 + i;
+        b.edge(s, l, 1 + rng.below(2) as u8);
+        b.edge(l, s, 1 + rng.below(2) as u8);
+    }
+    for j in 0..kids {
+        let k = 2 + leaves + j;
+        b.edge(h, k, 1 + rng.below(2) as u8);
+        b.edge(k, s, 1 + rng.below(2) as u8);
+    }
+    let mut order: Vec<usize> = (0..n).collect();
+    for i in (1..order.len()).rev() {
+        order.swap(i, rng.below(i + 1));
+    }
+    let last = if rng.chance(1, 2) { s } else { 2 + rng.below(n - 2) };
+    order.retain(|&x| x != last);
+    order.push(last);
+    let mut ops = b.ops;
+    for x in order {
+        ops.push(Op::Drop(x));
+    }
+    (ops, format!("doublehub(leaves {}, kids {}, last {})", leaves, kids, last))
+}
+
 pub const FAMILY_KINDS: usize = 9;
 
 /// Structured shapes; `idx` selects kind, size, multiplicities, Weak placement and the drop order
